@@ -25,6 +25,12 @@ CLAIMED = {
  "C19": ("Contracts on the stream cursor: Stream.ReadRune/UnreadRune/ReadByte/UnreadByte/initRead/reset/checkEOS against a ghost model of bufio.Reader transcribed from its source (consumed bytes, last rune size, remembered byte; a failed ReadByte keeps the remembered byte), position moves by exactly the bytes consumed, wrong stream type/mode is refused without moving; peek_char/peek_byte leave the cursor where it was when the continuation runs and no state-mutating defer is pending while a continuation may run (peek/read_term); get_char/get_byte advance by exactly what they deliver; text/binary writers forward the bytes unchanged in one call and count them.",
          "Fragment: that read_term stops exactly after the end token (lexer look-ahead), Seek, eof_action sequences across operations are not decided. Trusted: the bufio extern contracts, stream(), newBufReader, Parser.Term, errors.Is fact.",
          "contract-based deductive verification: WP over go/ssa with ghost fields and continuation-point (onk / defer-k) obligations; SMT", "DESIGN.md 5 C19"),
+ "C15": ("Contracts on the scalar conversions of Scan (convertAssignInt/8/16/32/64/Float64: on success the destination holds exactly the answer's value, a non-integer answer is errConversion and leaves the destination alone, the answer is what Env.Resolve returns for the term) with the value-changing-conversion hazard generated for every integer conversion, and on placeholders: Parser.termOf maps signed integers exactly, floats bit-exactly and Go strings to the same constructor call (CharList/CodeList/NewAtom of the text, chosen by double_quotes) that the parser's double-quoted-literal branch uses.",
+         "Fragment: Scan into structs/maps/slices (reflect), list conversions, float32, placeholder accounting in Parser.Term are not decided. Trusted: reflect.Value accessors as deterministic pure functions, CharList/CodeList/NewAtom/unDoubleQuote as deterministic pure functions (their bodies are not verified here), Env.Resolve.",
+         "contract-based deductive verification: WP over go/ssa (both packages) + SMT, narrowing hazards", "DESIGN.md 5 C15"),
+ "C16": ("Contracts on the deterministic modes of relational built-ins, stated at the call that hands the answer to unification: char_code/2 (the character whose code equals the integer, in both directions; no value-changing conversion), atom_length/2 (length of the rune sequence of the atom's text), succ/2 (S-1 for S>0; X+1 through the exact add kernel, overflow is an error), between/3 (check mode runs the continuation only for low <= V <= high; enumeration yields low, and continues with low+1 only when that cannot wrap).",
+         "Fragment: every enumeration mode (atom_concat, sub_atom, append, length, nth, member, select, between's answer sequence), arg/3, functor/3 and =../2 are not decided. Trusted: Env.Resolve, Atom.String as a deterministic pure function, utf8.ValidRune fact.",
+         "contract-based deductive verification: WP over go/ssa with at-call and closure-precondition obligations; SMT", "DESIGN.md 5 C16"),
 }
 
 NA_REASON = {
